@@ -452,7 +452,7 @@ func c15Exec(cs fw.Case, orderMatters bool) *fw.Fail {
 	}
 	fw.Tally("map_orders", int64(x.Executions))
 	fw.Tally("states", int64(x.Executions))
-	fw.Tally("transitions", int64(x.Executions))
+	fw.Tally("transitions", x.Steps+int64(x.Executions))
 	fw.Tally("traces_validated", int64(x.Executions))
 	for o := range x.Outcomes {
 		fw.TallyOutcome(o)
